@@ -42,7 +42,8 @@ def cases(draw):
     inbound = draw(st.lists(st.sampled_from(["dwr", "app"]), max_size=3))
     sched = draw(conc.schedules(300))
     return {"role": draw(st.sampled_from(["client", "server"])), "subs": subs, "pw": pw, "sizes": sizes, "inbound": inbound,
-            "sched": sched, "lines": draw(st.booleans()) if sched else False, "holds": draw(conc.holds())}
+            "sched": sched, "lines": draw(st.booleans()) if sched else False, "holds": draw(conc.holds()),
+            "gen2": draw(st.sampled_from([None, None, None, "local-close", "peer-fin", "peer-fin-mid-message"]))}
 
 
 def build_msgs(case):
@@ -78,6 +79,8 @@ def run_one(case):
     with World(role=case["role"], apps=["s6a"], line_preempt=case["lines"], max_steps=600000, line_holds=conc.wants_line_holds(case.get("holds"))) as w:
         if not w.open_connection():
             return [V("harness: connection setup failed", "harness/setup", w.state())], info
+        if case.get("gen2") and not w.second_generation(case["gen2"]):
+            return [V("the same node object can be started again", f"second-connection-failed/{case['gen2']}", w.state())], info
         msgs = build_msgs(case)
         expected = [[m.dump() for m in lst] for lst in msgs]
         sock = w.sock
@@ -211,6 +214,8 @@ def _collect(shard, seed, n):
             f.add("targeted-delay")
             if conc.wants_line_holds(case.get("holds")):
                 f.add("delay-between-source-lines")
+        if case.get("gen2"):
+            f.add("second-connection-of-the-object")
         if any(m["size"] >= 90000 for s in case["subs"] for m in s["msgs"]):
             f.add("crosses-send-buffer-limit")
         if any(m["size"] >= 262100 for s in case["subs"] for m in s["msgs"]):
